@@ -367,7 +367,9 @@ def run_check(prop, tier, vseed, nruns=None, workers=None, write_evidence=True, 
     n = int(nruns if nruns is not None else mod.RUNS[tier])
     wall = float(wall if wall is not None else mod.WALL[tier])
     workers = int(workers or os.environ.get("VERIF_WORKERS") or os.cpu_count() or 4)
-    nchunks = max(1, min(n, workers * 8))
+    # chunks stay short (at most ~1500 runs) so that, when the soft wall budget is reached, the chunks in flight finish well
+    # inside the grace period whatever the load on the machine
+    nchunks = max(1, min(n, max(workers * 8, -(-n // 1500))))
     chunks = [list(range(k, n, nchunks)) for k in range(nchunks)]
     print("SEED VERIF_SEED=%d property=%s tier=%s runs=%d workers=%d" % (vseed, prop, tier, n, workers), flush=True)
     agg = {"n": 0, "faults": {}, "probes": {}, "sim": {}, "traces": set(), "digests": [],
@@ -378,7 +380,7 @@ def run_check(prop, tier, vseed, nruns=None, workers=None, write_evidence=True, 
     ex = cf.ProcessPoolExecutor(max_workers=workers, mp_context=ctx)
     futs = {ex.submit(_chunk_forked, (prop, tier, vseed, c)) for c in chunks if c}
     pending = set(futs)
-    hard = wall + 180.0
+    hard = wall + max(180.0, 0.25 * wall)
     while pending:
         el = entropy.real_time() - t0
         if el > wall and not truncated:
